@@ -52,12 +52,13 @@ SCHEMAS = {
     #     optional many-to-one with an explicit cascade on the set side
     'S2': {'entities': [
         {'attrs': [PK, A_set(1, 1, cascade=False), A_set(2, 1), A_int(unique=True), A_int(), A_ref(3, 1), A_ref(4, 1, cascade=True),
-                   A_set(5, 1, cascade=True), A_int(required=True, unique=True)], 'ckeys': [[3, 4], [4, 8]]},
+                   A_set(5, 1, cascade=True), A_int(required=True, unique=True), A_ref(6, 1)], 'ckeys': [[3, 4], [4, 8]]},
         {'attrs': [PK, A_ref(0, 1, required=True)], 'ckeys': []},
         {'attrs': [PK, A_set(0, 2), A_int(unique=True)], 'ckeys': []},
         {'attrs': [PK, A_ref(0, 5)], 'ckeys': []},
         {'attrs': [PK, A_ref(0, 6, required=True)], 'ckeys': []},
         {'attrs': [PK, A_ref(0, 7), A_set(5, 3), A_ref(5, 2)], 'ckeys': []},
+        {'attrs': [PK, A_ref(0, 9, required=True)], 'ckeys': []},      # one-to-one without cascade, declared after the cascading one: refuses late
     ]},
     # S3: the many-to-many side that _calc_modified_m2m skips (second in name order) also owns a refusing one-to-many, after the
     #     many-to-many in attribute order; a second, cascading one-to-many with grandchildren; a one-to-one whose column side cascades
